@@ -197,6 +197,10 @@ class ConvexSpheropolygon(Shape2D):
         angles = np.mod(angles, 2 * np.pi)
         num_verts = self.num_vertices
         verts = self._polygon.vertices[:, :2] - self._polygon.centroid[:2]
+        # The construction below assumes counterclockwise order in the xy plane;
+        # vertices stored counterclockwise about a -z normal run clockwise there.
+        if self._polygon.normal[2] < 0:
+            verts = verts[::-1]
 
         # compute intermediates
         v1 = np.roll(verts, 1, axis=0)
